@@ -46,6 +46,9 @@ type Case struct {
 	PShape   string            `json:"pshape"` // shape of the caller's context (ctxshape.go)
 	Names    map[string]string `json:"names"`  // header names of the scripts' header keys (default "X-H<k>")
 	D        DSpec             `json:"d"`
+	// Rec: handler.RecoverHandler sits between the timeout middleware and the work (the order of
+	// the chain the rest engine builds), with a gate in between (recGate, restctl.go)
+	Rec bool `json:"rec"`
 }
 
 type Out struct {
@@ -61,7 +64,10 @@ type Out struct {
 	DlSeenNs int64    `json:"dl_seen_ns"`
 	T1Ns     int64    `json:"t1_ns"`
 	RetAtD   int      `json:"ret_at_d"` // -1 n/a, 0 no, 1 yes
-	Err      string   `json:"err,omitempty"`
+	// Hung: a handler action did not come back and for two seconds on end a goroutine was parked
+	// on a mutex of rest/handler: the run was cut there (then D is produced once more: RetAtD)
+	Hung bool   `json:"hung"`
+	Err  string `json:"err,omitempty"`
 }
 
 func runRest(c Case) (out Out) {
@@ -92,17 +98,11 @@ func runRest(c Case) (out Out) {
 		return <-gate
 	}
 	work := http.HandlerFunc(func(w http.ResponseWriter, r *http.Request) {
+		w, rg := unwrapRec(w)
 		t1 = time.Now()
 		dlSeen, hasDl = r.Context().Deadline()
 		hgid.Store(gid())
 		close(hStarted)
-		defer func() {
-			if p := recover(); p != nil {
-				k, v := classifyPanic(p)
-				acks <- hack{obs: []any{"panic", k, v}, ended: true}
-				panic(p)
-			}
-		}()
 		rcdl := false
 		gate := func() {
 			cmd := recvGate()
@@ -117,6 +117,19 @@ func runRest(c Case) (out Out) {
 				doRCDeadline(w)
 			}
 		}
+		defer func() {
+			if p := recover(); p != nil {
+				k, v := classifyPanic(p)
+				if rg != nil {
+					// a RecoverHandler above: its reply and the return are actions still to come
+					rg.armed, rg.gate, rg.ack = true, gate, func(a hack) { acks <- a }
+					acks <- hack{obs: []any{"panic", k, v}}
+				} else {
+					acks <- hack{obs: []any{"panic", k, v}, ended: true}
+				}
+				panic(p)
+			}
+		}()
 		for _, a := range script {
 			switch a[0].(string) {
 			case "rcdl":
@@ -137,7 +150,11 @@ func runRest(c Case) (out Out) {
 		acks <- hack{obs: []any{"none"}, ended: true}
 	})
 
-	h := handler.TimeoutHandler(time.Duration(c.DurNs))(work)
+	var next http.Handler = work
+	if c.Rec {
+		next = underRecover(handler.RecoverHandler, work)
+	}
+	h := handler.TimeoutHandler(time.Duration(c.DurNs))(next)
 	req, _ := http.NewRequestWithContext(parent, http.MethodGet, "http://localhost/x", http.NoBody)
 	switch c.Req {
 	case "ws":
@@ -224,12 +241,33 @@ func runRest(c Case) (out Out) {
 		case <-time.After(5 * time.Second):
 			return hack{}, false
 		}
-		select {
-		case a := <-acks:
-			return a, true
-		case <-time.After(5 * time.Second):
-			return hack{}, false
+		a, ok, hung := waitHack(acks)
+		out.Hung = hung
+		return a, ok
+	}
+	// a handler action hangs inside rest/handler: an observation.  The Done event is produced
+	// (once more) and ServeHTTP is given the usual time to return
+	cutHung := func() {
+		cancelParent()
+		out.RetAtD = 0
+		if sReturned(waitS) {
+			out.RetAtD = 1
 		}
+		out.Wrapped = wrapped()
+		out.SOut = "wait"
+		if sret.Load() {
+			out.SOut = "ret"
+			if sPanic != nil {
+				out.SOut = "panic"
+				out.PKind, out.PVal = classifyPanic(sPanic)
+			}
+		}
+		out.W = rw.out()
+		out.HasDl = hasDl
+		if hasDl {
+			out.DlSeenNs = int64(dlSeen.Sub(tA))
+		}
+		out.T1Ns = int64(t1.Sub(tA))
 	}
 
 	if pre {
@@ -238,17 +276,25 @@ func runRest(c Case) (out Out) {
 		var obs [][]any
 		firstRefused := -1
 		for !hEnded {
-			select {
-			case a := <-acks:
-				if a.wto && firstRefused < 0 {
-					firstRefused = len(obs)
+			a, ok, hung := waitHack(acks)
+			if !ok {
+				if hung {
+					out.Hung = true
+					for _, o := range obs {
+						emit("H")
+						out.HObs = append(out.HObs, o)
+					}
+					cutHung()
+					return
 				}
-				obs = append(obs, a.obs)
-				hEnded = a.ended
-			case <-time.After(5 * time.Second):
 				out.Err = "handler stuck (ungated run)"
 				return
 			}
+			if a.wto && firstRefused < 0 {
+				firstRefused = len(obs)
+			}
+			obs = append(obs, a.obs)
+			hEnded = a.ended
 		}
 		if !returned {
 			returned = sReturned(waitS)
@@ -310,6 +356,10 @@ func runRest(c Case) (out Out) {
 		}
 		a, ok := stepH(self)
 		if !ok {
+			if out.Hung {
+				cutHung()
+				return
+			}
 			out.Err = fmt.Sprintf("handler stuck at step %d", i)
 			return
 		}
